@@ -1,4 +1,5 @@
 import Spdc.Real.Counts
+import Spdc.Real.Singles
 /-!
 # C08 — fibre-coupled coincidences never exceed singles; rates and efficiencies consistent
 
@@ -165,7 +166,38 @@ theorem symmetric_repair_is_conservative (c rs ri : ℝ) (hs : 0 ≤ rs) :
     symmetricPinned c rs ri = (efficienciesFromCounts c rs ri).symmetric := by
   simp only [symmetricPinned, efficienciesFromCounts, transc_sqrt_real, Real.sqrt_mul hs]
 
+/-- **T4 (partial).** Skeleton of the no-diffraction clause, proved exactly: for a collinear signal
+(`θ_s = θ_s,ext = 0`) and no pump walk-off (`tan ρ = 0`) the numerator of the singles integrand is the pure
+phase `exp(i·(L·Δk/2)·(z₁ − z₂))`, `Δk = k_p − (±k_s ± k_i + k_eff)` — the tilt terms `GG`, `IIgam`, `Γ₄` and
+the walk-off terms `HH`, `IIrho` vanish identically; so it has modulus 1 and equals 1 at perfect phase
+matching (this is "F = R = 1 without walk-off" on the numerator side), and the integrand is
+`a(z₁)a(z₂)·phase / denominator`.
+**Missing (hence `_partial`; validated by search only, `C08.limit`, 1e-4):** (i) that in the large-waist limit
+`k_p W² ≫ L` the denominator `8√(AA1·BB1·AA2·BB2·EE·FF)` tends to the Gaussian mode-overlap constant that
+gives `η`, and (ii) that with walk-off the numerator tends to the Gaussian whose double integral is `R`; both are
+asymptotic statements about ~25 complex sub-expressions under a principal square root, not identities. -/
+theorem singles_ideal_partial (p : Singles.SinglesIn ℝ) (hθ : p.thetaS = 0) (hθe : p.thetaSe = 0)
+    (hρ : Real.tan p.rho = 0) (a1 a2 z1 z2 : ℝ) :
+    let Δk := p.kp - (p.signKs * p.ksAbs + p.signKi * p.kiAbs + p.keff)
+    let nd := Singles.numDen (Singles.coef p) z1 z2
+    nd.1.toC = Complex.exp (((1 / 2 * (p.len * Δk) * (z1 - z2) : ℝ) : ℂ) * Complex.I) ∧
+    ‖nd.1.toC‖ = 1 ∧
+    (Δk = 0 → nd.1.toC = 1) ∧
+    (Singles.integrand (Singles.coef p) a1 a2 z1 z2).toC = ((a1 * a2 : ℝ) : ℂ) * nd.1.toC / nd.2.toC := by
+  obtain ⟨h3, hl, hl2, hg, hc3⟩ := Singles.coef_collinear p hθ hθe hρ
+  have hnum := Singles.numerator_of (Singles.coef p) h3 hl hl2 hg z1 z2
+  rw [hc3] at hnum
+  refine ⟨hnum, ?_, ?_, ?_⟩
+  · rw [hnum, Complex.norm_exp_ofReal_mul_I]
+  · intro h0
+    rw [hnum, h0]; simp
+  · simp [Singles.integrand]
+
 /-! ## non-vacuity -/
+
+example : ∃ p : Singles.SinglesIn ℝ, p.thetaS = 0 ∧ p.thetaSe = 0 ∧ Real.tan p.rho = 0 ∧ p.len = 1 :=
+  ⟨⟨1, 0, 0, 0, 1, 1, 1, 1, 1, 2, 3, 1, 1, 0, 0, 0⟩, rfl, rfl, by simp, rfl⟩
+
 
 example : (efficienciesFromCounts (2 : ℝ) 4 9).symmetric = 1 / 3 := by
   have h := (eff_formulas 2 4 9 (by norm_num) (by norm_num)).2.2
